@@ -461,6 +461,56 @@ theorem exec_clean {Γ : List Stmt} (allow : Nat → List FK)
     simp only [allChecked, Bool.and_eq_true] at hc
     exact ih hc.2 hb hm e
 
+/-! ### failing executions exist (non-vacuity of the theorems about failing executions) -/
+
+/-- the way `s` fails when its very first failure point fires (`none`: `s` does not start with one) -/
+def firstFail : Stmt → Option FK
+  | .fail k => some k
+  | .read _ (some k) => some k
+  | .seq a _ => firstFail a
+  | .loop b => firstFail b
+  | .branch a b => match firstFail a with
+      | some k => some k
+      | none => firstFail b
+  | _ => none
+
+theorem exec_firstFail {Γ : List Stmt} (s : Stmt) (k : FK) (h : firstFail s = some k) (st : St V) :
+    ∃ st', Exec Γ s st (.failed k) st' := by
+  induction s generalizing k with
+  | skip => simp [firstFail] at h
+  | asg l => simp [firstFail] at h
+  | sub i obj chk => simp [firstFail] at h
+  | fail k' =>
+    simp only [firstFail, Option.some.injEq] at h
+    subst h
+    exact ⟨st, .fail _ _⟩
+  | read dst chk =>
+    cases chk with
+    | none => simp [firstFail] at h
+    | some k' =>
+      simp only [firstFail, Option.some.injEq] at h
+      subst h
+      exact ⟨{ st with bad := true }, .readBadChk _ _ _ _ ⟨fun _ _ => rfl, fun _ _ _ => rfl⟩ rfl rfl⟩
+  | seq a b iha _ =>
+    obtain ⟨st', h'⟩ := iha k (by simpa [firstFail] using h)
+    exact ⟨st', .seqFail _ _ _ _ _ h'⟩
+  | loop b ih =>
+    obtain ⟨st', h'⟩ := ih k (by simpa [firstFail] using h)
+    exact ⟨st', .loopFail _ _ _ _ h'⟩
+  | branch a b iha ihb =>
+    simp only [firstFail] at h
+    cases ha : firstFail a with
+    | some k' =>
+      rw [ha] at h
+      simp only [Option.some.injEq] at h
+      subst h
+      obtain ⟨st', h'⟩ := iha k' ha
+      exact ⟨st', .brL _ _ _ _ _ h'⟩
+    | none =>
+      rw [ha] at h
+      obtain ⟨st', h'⟩ := ihb k h
+      exact ⟨st', .brR _ _ _ _ _ h'⟩
+
 /-! ### from a check over the finite table to a statement about every index -/
 
 theorem forall_of_range {n : Nat} {P Q : Nat → Bool}
